@@ -77,10 +77,7 @@ func Run(o *hx.Opts, w *lineio.Writer) error {
 		}
 		return RunIsolated("C10", o, w, jobs, 1, 150*time.Second)
 	}
-	mp, err := MeasureMaxPayload()
-	if err != nil {
-		return err
-	}
+	mp := MaxPayloadOrDocumented()
 	var jobs []Job
 	r := o.Rand(10)
 	for i := 0; i < o.N(140, 2500); i++ {
